@@ -19,6 +19,7 @@ package main
 import (
 	_ "embed"
 	"fmt"
+	"sort"
 	"go/ast"
 	"go/token"
 	"go/types"
@@ -38,15 +39,117 @@ const e1InlineDepth = 3
 //go:embed baseline_funcs.txt
 var baselineFuncsTxt string
 
+var baselineSigs = map[string]string{}
+
 var baselineFuncs = func() map[string]bool {
 	m := map[string]bool{}
 	for _, l := range strings.Split(baselineFuncsTxt, "\n") {
 		if l = strings.TrimSpace(l); l != "" {
-			m[l] = true
+			name, sig, _ := strings.Cut(l, "\t")
+			m[name] = true
+			baselineSigs[name] = sig
 		}
 	}
 	return m
 }()
+
+// sigKey: receiver type and signature of a declared function, package-qualified (parameter names excluded).
+func sigKey(fn *types.Func) string {
+	if fn == nil {
+		return ""
+	}
+	sig, _ := fn.Type().(*types.Signature)
+	if sig == nil {
+		return ""
+	}
+	var sb strings.Builder
+	if r := sig.Recv(); r != nil {
+		sb.WriteString("(" + types.TypeString(r.Type(), nil) + ") ")
+	}
+	tup := func(t *types.Tuple) string {
+		var ps []string
+		for i := 0; i < t.Len(); i++ {
+			ps = append(ps, types.TypeString(t.At(i).Type(), nil))
+		}
+		return strings.Join(ps, ", ")
+	}
+	if tp := sig.TypeParams(); tp != nil {
+		sb.WriteString(fmt.Sprintf("[%d]", tp.Len()))
+	}
+	sb.WriteString("func(" + tup(sig.Params()) + ")")
+	if sig.Variadic() {
+		sb.WriteString("...")
+	}
+	sb.WriteString(" (" + tup(sig.Results()) + ")")
+	return sb.String()
+}
+
+// renamedBack: functions recognised as renamed baseline functions -> the qualified name the tables know them by.
+var renamedBack = map[*types.Func]string{}
+var renamedNotes []string
+
+// resolveRenames: a baseline function that no longer exists, while exactly one function that did not exist then has
+// the same package, receiver and signature, was renamed: the tables keep addressing it by its old name.
+func resolveRenames(p *Prog) {
+	renamedBack = map[*types.Func]string{}
+	renamedNotes = nil
+	var fresh []*FuncInfo
+	for _, fi := range p.Funcs {
+		if fi.Decl != nil && fi.Obj != nil && !fi.Ctl && !baselineFuncs[fi.Name] {
+			fresh = append(fresh, fi)
+		}
+	}
+	if len(fresh) == 0 {
+		return
+	}
+	var missing []string
+	for name := range baselineFuncs {
+		if p.FuncByNm[name] == nil {
+			missing = append(missing, name)
+		}
+	}
+	sort.Strings(missing)
+	pkgOf := func(name string) string {
+		if i := strings.Index(name, "."); i >= 0 {
+			return name[:i]
+		}
+		return name
+	}
+	taken := map[*FuncInfo]bool{}
+	for _, old := range missing {
+		sig := baselineSigs[old]
+		if sig == "" {
+			continue
+		}
+		var cands []*FuncInfo
+		for _, fi := range fresh {
+			if !taken[fi] && pkgOf(fi.Name) == pkgOf(old) && sigKey(fi.Obj) == sig {
+				cands = append(cands, fi)
+			}
+		}
+		// several missing functions with this signature compete for the candidates: only an unambiguous pairing counts
+		nOld := 0
+		for _, o := range missing {
+			if pkgOf(o) == pkgOf(old) && baselineSigs[o] == sig {
+				nOld++
+			}
+		}
+		if len(cands) != 1 || nOld != 1 {
+			continue
+		}
+		fi := cands[0]
+		taken[fi] = true
+		p.FuncByNm[old] = fi
+		// qualified name as used in terms: pkg.Name for functions, bare method name for methods
+		oldBase := old[strings.LastIndex(old, ".")+1:]
+		if fi.Sig != nil && fi.Sig.Recv() != nil {
+			renamedBack[fi.Obj] = oldBase
+		} else {
+			renamedBack[fi.Obj] = pkgShort(fi.Obj.Pkg()) + "." + oldBase
+		}
+		renamedNotes = append(renamedNotes, old+" -> "+fi.Name)
+	}
+}
 
 type inlResult struct {
 	exits []*fstate
@@ -461,6 +564,9 @@ func (f *e1func) runInlined(st *fstate, c *ast.CallExpr, callee *FuncInfo) *inlR
 			// result values: a returned local becomes res(i, call); any other operand is equated with it
 			for j, op := range s.term.A {
 				r := mk("res", fmt.Sprint(j), ct)
+				if nres == 1 {
+					r = ct // the value of a single-result call is the call term itself
+				}
 				if op.K == "var" && g.isLocalObj(op.Obj) {
 					n2 := ns.clone()
 					ok := op.Key()
@@ -605,10 +711,21 @@ func copyResultFacts(st *fstate, call *Term, lhs []*Term) *fstate {
 			continue
 		}
 		rk := mk("res", fmt.Sprint(i), call).Key()
+		if len(lhs) == 1 {
+			rk = call.Key() // x := call(): facts about the call's value (not about the call event) hold for x
+		}
 		for _, k := range sortedKeys(st.facts) {
 			fc := st.facts[k]
 			if !strings.Contains(k, rk) {
 				continue
+			}
+			if len(lhs) == 1 {
+				switch fc.S {
+				case "ok", "fail", "called", "def", "defx", "true", "false":
+					if len(fc.A) >= 1 && (fc.A[0].Key() == rk || (len(fc.A) >= 2 && fc.A[1].Key() == rk)) {
+						continue // about the call event / the definition itself
+					}
+				}
 			}
 			if nf := replaceTerm(fc, rk, lt); nf != nil {
 				if n == nil {
